@@ -72,8 +72,8 @@ class PrecipitationData:
 
 class TemperatureParameters:
     def __init__(self, *args):
-        self.setTemperatureParameters(*args)
         self._isIsothermal = True
+        self.setTemperatureParameters(*args)
 
     def setTemperatureParameters(self, *args):
         if len(args) == 2:
